@@ -243,6 +243,10 @@ def run(rep, tier):
         rep.call(formulas.nearest_formula, rep, prog, "C11.formula")
         rep.call(step_unquantised, rep, prog, "C11.step-unquantised")
         rep.call(source_columns, rep, prog, "C11.source-columns")
+        # the same-size shortcut taken before resample_nearest copies src(trunc(left) + x, trunc(top) + y):
+        # equal to floor(left + x + 0.5) only for an integral origin, which the shortcut must test
+        from . import c12 as _c12
+        rep.call(_c12.copy_cond, rep, prog, "C11.copy-cond")
         from . import c09
         rep.call(c09.state_fields, rep, prog, "C11.stateless")
         from ..engines import validators
